@@ -156,9 +156,20 @@ func (w *dnsWorld) idle(d time.Duration) {
 	w.s.Notef("idle for %v", d)
 	// a timer armed right now makes the scheduler's time step end exactly at the
 	// target; the loop stops there, before the timer's (empty) task or anything else runs
+	// Before every scheduling decision all runnable tasks are drained (tape-chosen
+	// order, no time passing): during long pauses a runnable goroutine is never
+	// starved across a jump of simulated time.
 	target := w.s.Now() + d
 	verifsim.AfterFunc("idle-timer", d, func() {})
-	w.s.RunUntil(func() bool { return w.s.Now() >= target }, 10)
+	for w.s.Now() < target && !w.s.Failed() && w.s.Step < w.s.MaxSteps {
+		w.s.Quiesce(func() bool { return true }, 0, 0)
+		if w.track != nil {
+			w.track.scan()
+		}
+		if w.s.Now() >= target || !w.s.StepOnce(true, 10) {
+			break
+		}
+	}
 	if w.track != nil {
 		w.track.scan()
 	}
